@@ -11,6 +11,7 @@ import (
 )
 
 type okProto struct {
+	closed  bool
 	adds    int
 	removes int
 	refuse  bool
@@ -20,6 +21,9 @@ func (r *okProto) Info() mangos.ProtocolInfo {
 	return mangos.ProtocolInfo{Self: 0x10, Peer: 0x10, SelfName: "pair", PeerName: "pair"}
 }
 func (r *okProto) AddPipe(p mangos.ProtocolPipe) error {
+	if r.closed {
+		return mangos.ErrClosed // as every protocol of the library does once it has been closed
+	}
 	if r.refuse {
 		return mangos.ErrProtoState
 	}
@@ -32,7 +36,7 @@ func (r *okProto) AddPipe(p mangos.ProtocolPipe) error {
 }
 func (r *okProto) RemovePipe(p mangos.ProtocolPipe)                 { r.removes++ }
 func (r *okProto) OpenContext() (mangos.ProtocolContext, error)     { return nil, mangos.ErrProtoOp }
-func (r *okProto) Close() error                                      { return nil }
+func (r *okProto) Close() error                                      { r.closed = true; return nil }
 func (r *okProto) SendMsg(m *mangos.Message) error                   { return mangos.ErrProtoOp }
 func (r *okProto) RecvMsg() (*mangos.Message, error)                 { return nil, mangos.ErrProtoOp }
 func (r *okProto) GetOption(string) (interface{}, error)             { return nil, mangos.ErrBadOption }
